@@ -462,8 +462,8 @@ func rulePostingsValidate(c *core.Ctx) {
 	}
 	pv := types.ExprString(loop.Value)
 	want := map[string]string{
-		pv + ".Amount == nil":                      "nil amount",
-		pv + ".Amount.Cmp(Zero) < 0":               "negative amount",
+		pv + ".Amount == nil":                               "nil amount",
+		pv + ".Amount.Cmp(Zero) < 0":                        "negative amount",
 		"!accounts.ValidateAddress(" + pv + ".Source)":      "invalid source",
 		"!accounts.ValidateAddress(" + pv + ".Destination)": "invalid destination",
 		"!assets.IsValid(" + pv + ".Asset)":                 "invalid asset",
